@@ -52,6 +52,7 @@ type Scenario struct {
 	Tier   string     `json:"tier,omitempty"`
 	Family string     `json:"family,omitempty"`
 	Knobs  Knobs      `json:"knobs"`
+	Fixed  int        `json:"fixed,omitempty"` // leading set-up steps the shrinker must keep
 	Steps  []Op       `json:"steps"`
 	Sched  []SchedRec `json:"sched,omitempty"`
 	// StepOfCmd[i] = index of the step that issued command i (for shrinking the schedule with the steps)
